@@ -75,7 +75,7 @@ EffIn(t) == <<ver[t]>> \o [i \in 1..Len(SortedSeq(Inh(t))) |-> gen[SortedSeq(Inh
 
 \* C01 (and the start half of C07)
 StartOK(t) ==
-  /\ \A d \in Deps(t) : \A k \in EK : word[t][d][k] = "ok"
+  /\ g.scale \/ \A d \in Deps(t) : \A k \in EK : word[t][d][k] = "ok"
   /\ ~g.watch => /\ \A d \in EffDeps(t) : ready[d]
                  /\ \A d \in TransDeps(t) : ~failed[d]
 \* which properties a premature start breaches: always C01; C11 when a service it needs is not up;
@@ -104,7 +104,7 @@ UpToDateOK(e) == \A t \in Closure : ~Blocked(t) =>
 
 InitMon(c) ==
   /\ g = c
-  /\ word = [t \in 1..c.n |-> [d \in 1..c.n |-> [k \in EK |-> "none"]]]
+  /\ word = IF c.scale THEN <<>> ELSE [t \in 1..c.n |-> [d \in 1..c.n |-> [k \in EK |-> "none"]]]
   /\ ready = [t \in 1..c.n |-> FALSE] /\ failed = [t \in 1..c.n |-> FALSE]
   /\ nStart = [t \in 1..c.n |-> 0] /\ nSkip = [t \in 1..c.n |-> 0]
   /\ inst = [t \in 1..c.n |-> {}] /\ shells = [t \in 1..c.n |-> 0]
@@ -124,7 +124,7 @@ Step(e) ==
   CASE e.e = "cfg" ->
          \* a new run begins: the monitor restarts
          /\ g' = e.cfg
-         /\ word' = [t \in 1..e.cfg.n |-> [d \in 1..e.cfg.n |-> [k \in EK |-> "none"]]]
+         /\ word' = IF e.cfg.scale THEN <<>> ELSE [t \in 1..e.cfg.n |-> [d \in 1..e.cfg.n |-> [k \in EK |-> "none"]]]
          /\ ready' = [t \in 1..e.cfg.n |-> FALSE] /\ failed' = [t \in 1..e.cfg.n |-> FALSE]
          /\ nStart' = [t \in 1..e.cfg.n |-> 0] /\ nSkip' = [t \in 1..e.cfg.n |-> 0]
          /\ inst' = [t \in 1..e.cfg.n |-> {}] /\ shells' = [t \in 1..e.cfg.n |-> 0]
